@@ -103,7 +103,7 @@ Definition sent_sx (v : version) (e : cell) : sx :=
           | _ => SA "other"
           end;
           match e_init x with Some i => SL [hash_sx i] | None => SL [] end;
-          SN (d_seqno d); sx_nat (List.length (d_msgs d))]
+          SN (d_seqno d); sx_nat (List.length (d_msgs d)); SN (d_valid d)]
   | _, _ => SA "undecodable"
   end.
 
@@ -111,7 +111,7 @@ Definition sent_sx (v : version) (e : cell) : sx :=
    (ok|err|panic  sent-projection|()) ; the clock of poll i is i * wait/10 *)
 Definition run_send15 (a : sx) : sx :=
   match a with
-  | SL (SN ver :: SBytes pk :: opts :: st :: SL msgs :: SZ wait :: SB send_err :: SL script :: last :: _) =>
+  | SL (SN ver :: SBytes pk :: opts :: st :: SL msgs :: SZ wait :: SB send_err :: SL script :: last :: _ :: life :: _) =>
       match ver_of_N ver, acct_of_sx st, msgs_of_sx msgs with
       | None, _, _ => SL [SA "err"; SL []]
       | Some v, Some ac, Some ms =>
@@ -119,7 +119,8 @@ Definition run_send15 (a : sx) : sx :=
           | Ok w =>
               let sign (_ : unit) (_ : bytes) := zeros 512 in
               let hist := hist_of_sx wait 10 0 script (optN last) in
-              let r := send_v2 code_of xhash unit sign w tt ac ms 0 0 wait send_err hist in
+              (* the model's clock reads 0: the expiry in the message is the configured lifetime in seconds *)
+              let r := api_send_v2 code_of xhash unit sign w tt (lifetime_of (optZ life)) 0 ac ms 0 wait send_err hist in
               SL [match snd r with Ok _ => SA "ok" | Err _ => SA "err" | Panic _ => SA "panic" end;
                   match fst r with Some e => sent_sx v e | None => SL [] end]
           | _ => SL [SA "err"; SL []]
@@ -129,9 +130,43 @@ Definition run_send15 (a : sx) : sx :=
   | _ => sx_err "send15"
   end.
 
+(* c15.history: one Wallet object, a sequence of calls; (ver pk opts seed (op ...)) -> (answer ...)
+   op: 'stateinit | ('mutate kind cell) | 'address | ('next acct) *)
+Definition op_of_sx (a : sx) : option wop :=
+  match a with
+  | SA s => if String.eqb s "stateinit" then Some OStateInit
+            else if String.eqb s "address" then Some OAddress else None
+  | SL [SA s; x] => match acct_of_sx x with Some (Some ac) => Some (ONext ac) | _ => None end
+  | SL [SA _; _; c] => match cell_of_sx c with Some c' => Some (OMutate c') | None => None end
+  | _ => None
+  end.
+Definition ans_sx (x : wans) : sx :=
+  match x with
+  | AInit r => out_res hash_sx r
+  | ADone => SA "ok"
+  | AAddr r => out_res addr_sx r
+  | ANextP r => out_res (fun p => SL [SN (fst p); match snd p with None => SL [] | Some i => SL [hash_sx i] end]) r
+  end.
+Definition run_history15 (a : sx) : sx :=
+  match a with
+  | SL (SN ver :: SBytes pk :: opts :: _ :: SL ops :: _) =>
+      match ver_of_N ver with
+      | None => SA "err"
+      | Some v =>
+          match new_wallet (bytes_to_bits pk) v (opts_of_sx opts) with
+          | Ok w =>
+              let os := flat_map (fun o => match op_of_sx o with Some x => [x] | None => [] end) ops in
+              SL (map ans_sx (run_history code_of xhash w os))
+          | _ => SA "err"
+          end
+      end
+  | _ => sx_err "history"
+  end.
+
 Definition run (name : string) (a : sx) : sx :=
   let is x := String.eqb name x in
   if is "c15.addr" then run_addr a
   else if is "c15.next" then run_next a
   else if is "c15.send" then run_send15 a
+  else if is "c15.history" then run_history15 a
   else sx_err "unknown case kind".
